@@ -1,7 +1,709 @@
 package main
 
-// Replay of solver models against the real code (filled in later).
+// Replay of solver models against the real code.
+//
+// A refuted obligation comes with a model of the function's entry state: values of the parameters and of the access
+// paths the contract mentions (lengths and leading elements of slices, fields reached through pointers). From it
+// a Go test is generated that rebuilds that state, calls the real function inside its package (go test -overlay,
+// nothing is written into /repo) and evaluates the violated clause translated to Go. "confirmed" means the real
+// code panicked (safety obligations) or violated the clause on that input.
+
+import (
+	"encoding/json"
+	"fmt"
+	"os"
+	"os/exec"
+	"path/filepath"
+	"sort"
+	"strconv"
+	"strings"
+	"time"
+
+	"golang.org/x/tools/go/ssa"
+)
+
+type goTr struct {
+	v        *Verifier
+	con      *Contract
+	results  map[string]string // contract result name -> Go variable
+	bound    map[string]bool
+	olds     [][2]string       // snapshot (variable, source expression)
+	oldNames map[string]string // path text -> snapshot variable
+	inOld    bool
+	pkg      string
+	failed   string
+	maxLenV  string
+}
+
+func (g *goTr) fail(msg string) string {
+	if g.failed == "" {
+		g.failed = msg
+	}
+	return "false"
+}
+
+func (g *goTr) expr(e SExpr) string {
+	switch x := e.(type) {
+	case *SInt:
+		return x.V
+	case *SBool:
+		return fmt.Sprint(x.V)
+	case *SStr:
+		return strconv.Quote(x.V)
+	case *SNil:
+		return "nil"
+	case *SIdent:
+		if g.bound[x.Name] {
+			return x.Name
+		}
+		if r, ok := g.results[x.Name]; ok {
+			return r
+		}
+		if g.inOld && g.isParamRooted(e) {
+			return g.snapshot(e)
+		}
+		return x.Name
+	case *SLet:
+		return g.fail("let not supported in replay")
+	case *SUnary:
+		if x.Op == "*" && g.inOld && g.isClosedPath(e) {
+			return g.snapshot(e)
+		}
+		return "(" + x.Op + g.expr(x.X) + ")"
+	case *SSel:
+		if id, ok := x.X.(*SIdent); ok && !g.bound[id.Name] && !g.isParam(id.Name) && g.results[id.Name] == "" {
+			return id.Name + "." + x.Name // package-qualified
+		}
+		if g.inOld && g.isClosedPath(e) {
+			return g.snapshot(e)
+		}
+		return g.expr(x.X) + "." + x.Name
+	case *SIndex:
+		return g.expr(x.X) + "[" + g.expr(x.I) + "]"
+	case *SSlice:
+		lo, hi := "", ""
+		if x.Lo != nil {
+			lo = g.expr(x.Lo)
+		}
+		if x.Hi != nil {
+			hi = g.expr(x.Hi)
+		}
+		return g.expr(x.X) + "[" + lo + ":" + hi + "]"
+	case *SBinary:
+		a, b := g.expr(x.X), g.expr(x.Y)
+		switch x.Op {
+		case "==>":
+			return "(!(" + a + ") || (" + b + "))"
+		case "<==>":
+			return "((" + a + ") == (" + b + "))"
+		}
+		return "(" + a + " " + x.Op + " " + b + ")"
+	case *SCall:
+		return g.call(x)
+	case *SQuant:
+		return g.quant(x)
+	}
+	return g.fail(fmt.Sprintf("cannot translate %s", e))
+}
+
+func (g *goTr) isParam(name string) bool {
+	if g.con.Recv != nil && g.con.Recv.Name == name {
+		return true
+	}
+	for _, p := range g.con.Params {
+		if p.Name == name {
+			return true
+		}
+	}
+	return false
+}
+
+func (g *goTr) isParamRooted(e SExpr) bool {
+	for {
+		switch x := e.(type) {
+		case *SIdent:
+			return g.isParam(x.Name)
+		case *SSel:
+			e = x.X
+		case *SUnary:
+			e = x.X
+		default:
+			return false
+		}
+	}
+}
+
+func (g *goTr) isClosedPath(e SExpr) bool {
+	for {
+		switch x := e.(type) {
+		case *SIdent:
+			return g.isParam(x.Name) && !g.bound[x.Name]
+		case *SSel:
+			e = x.X
+		case *SUnary:
+			if x.Op != "*" {
+				return false
+			}
+			e = x.X
+		default:
+			return false
+		}
+	}
+}
+
+// snapshot returns a variable holding the pre-call value of a closed access path.
+func (g *goTr) snapshot(e SExpr) string {
+	key := e.String()
+	if n, ok := g.oldNames[key]; ok {
+		return n
+	}
+	n := fmt.Sprintf("old%d", len(g.oldNames))
+	g.oldNames[key] = n
+	was := g.inOld
+	g.inOld = false
+	src := g.expr(e)
+	g.inOld = was
+	g.olds = append(g.olds, [2]string{n, src})
+	return n
+}
+
+func (g *goTr) call(x *SCall) string {
+	if sel, ok := x.Fn.(*SSel); ok {
+		if id, ok := sel.X.(*SIdent); ok {
+			if sf, ok := g.v.contracts.Specs[id.Name+"."+sel.Name]; ok {
+				return g.specFunc(sf, x.Args)
+			}
+			var as []string
+			for _, a := range x.Args {
+				as = append(as, g.expr(a))
+			}
+			return id.Name + "." + sel.Name + "(" + strings.Join(as, ", ") + ")"
+		}
+	}
+	id, ok := x.Fn.(*SIdent)
+	if !ok {
+		return g.fail("unsupported call")
+	}
+	switch id.Name {
+	case "old":
+		was := g.inOld
+		g.inOld = true
+		r := g.expr(x.Args[0])
+		g.inOld = was
+		return r
+	case "len", "cap", "min", "max", "int", "rune", "byte", "uint", "int32", "int64", "uint8", "uint32", "uint64", "uint16", "int16", "int8":
+		var as []string
+		for _, a := range x.Args {
+			as = append(as, g.expr(a))
+		}
+		return id.Name + "(" + strings.Join(as, ", ") + ")"
+	case "ite":
+		return "govcIte(" + g.expr(x.Args[0]) + ", " + g.expr(x.Args[1]) + ", " + g.expr(x.Args[2]) + ")"
+	case "fresh", "allocated":
+		return "true"
+	}
+	var sf *SpecFunc
+	if s2, ok := g.v.contracts.Specs[g.pkg+"."+id.Name]; ok {
+		sf = s2
+	} else {
+		for k, s3 := range g.v.contracts.Specs {
+			if strings.HasSuffix(k, "."+id.Name) {
+				sf = s3
+			}
+		}
+	}
+	if sf != nil {
+		return g.specFunc(sf, x.Args)
+	}
+	// a function of the package (pure helper) or a conversion
+	var as []string
+	for _, a := range x.Args {
+		as = append(as, g.expr(a))
+	}
+	return id.Name + "(" + strings.Join(as, ", ") + ")"
+}
+
+func (g *goTr) specFunc(sf *SpecFunc, args []SExpr) string {
+	if sf.Body == nil {
+		return g.fail("ghost function " + sf.Name + " is not executable")
+	}
+	if len(args) != len(sf.Params) {
+		return g.fail("arity")
+	}
+	sub := map[string]SExpr{}
+	for i, p := range sf.Params {
+		sub[p.Name] = args[i]
+	}
+	return g.expr(substSpec(sf.Body, sub))
+}
+
+func (g *goTr) quant(x *SQuant) string {
+	// bounded enumeration of every bound variable over [-4, maxLen+4] (runes: the same window plus ASCII)
+	var sb strings.Builder
+	sb.WriteString("func() bool {\n")
+	nb := map[string]bool{}
+	for k := range g.bound {
+		nb[k] = true
+	}
+	old := g.bound
+	g.bound = nb
+	depth := 0
+	for _, b := range x.Vars {
+		g.bound[b.Name] = true
+		t := b.Type
+		if strings.HasPrefix(t, "[]") || strings.HasPrefix(t, "*") {
+			g.bound = old
+			return g.fail("quantifier over " + t + " is not executable")
+		}
+		sb.WriteString(fmt.Sprintf("for %s := %s(-4); int(%s) <= govcMaxLen+4; %s++ {\n", b.Name, t, b.Name, b.Name))
+		depth++
+	}
+	body := g.expr(x.Body)
+	if x.Forall {
+		sb.WriteString("if !govcTry(func() bool { return " + body + " }) { return false }\n")
+	} else {
+		sb.WriteString("if govcTry(func() bool { return " + body + " }) { return true }\n")
+	}
+	for i := 0; i < depth; i++ {
+		sb.WriteString("}\n")
+	}
+	if x.Forall {
+		sb.WriteString("return true\n}()")
+	} else {
+		sb.WriteString("return false\n}()")
+	}
+	g.bound = old
+	return sb.String()
+}
+
+type pathInit struct {
+	path   string
+	role   string
+	gotype string
+	val    string
+	elems  map[int]string
+	length int
+	ref    string
+}
+
+func pathDepth(p string) int {
+	return strings.Count(p, ".") + strings.Count(p, "*") + strings.Count(p, "[")
+}
+
+func modelInt(s string) (int64, bool) {
+	s = strings.TrimSpace(s)
+	n, err := strconv.ParseInt(s, 10, 64)
+	if err != nil {
+		return 0, false
+	}
+	return n, true
+}
+
+// genReplayTest builds the Go test source; ok=false with a reason when the obligation cannot be replayed.
+func (v *Verifier) genReplayTest(o *Obligation, con *Contract, fn *ssa.Function) (src string, pkgDir string, reason string) {
+	if o.Model == nil {
+		return "", "", "no model"
+	}
+	pkgPath := fn.Pkg.Pkg.Path()
+	pkgName := fn.Pkg.Pkg.Name()
+	rel := strings.TrimPrefix(strings.TrimPrefix(pkgPath, "github.com/dlclark/regexp2/v2"), "/")
+	if rel == "" {
+		rel = "."
+	}
+	// collect path initialisers
+	inits := map[string]*pathInit{}
+	get := func(p string) *pathInit {
+		if pi, ok := inits[p]; ok {
+			return pi
+		}
+		pi := &pathInit{path: p, elems: map[int]string{}, length: -1}
+		inits[p] = pi
+		return pi
+	}
+	for _, mv := range o.ModelVars {
+		val, ok := o.Model[mv.Name]
+		if !ok || mv.Path == "" {
+			continue
+		}
+		pi := get(mv.Path)
+		pi.gotype = mv.GoType
+		switch mv.Role {
+		case "scalar", "ptr":
+			pi.role = mv.Role
+			pi.val = val
+		case "len":
+			pi.role = "slice"
+			if n, ok := modelInt(val); ok {
+				pi.length = int(n)
+			}
+		case "sliceref":
+			pi.ref = val
+		case "elem":
+			pi.elems[mv.Index] = val
+		case "strlen":
+			pi.role = "string"
+			if n, ok := modelInt(val); ok {
+				pi.length = int(n)
+			}
+		case "strbyte":
+			pi.elems[mv.Index] = val
+		}
+	}
+	var paths []*pathInit
+	for _, pi := range inits {
+		if pi.role != "" {
+			paths = append(paths, pi)
+		}
+	}
+	sort.Slice(paths, func(i, j int) bool {
+		di, dj := pathDepth(paths[i].path), pathDepth(paths[j].path)
+		if di != dj {
+			return di < dj
+		}
+		return paths[i].path < paths[j].path
+	})
+	var body strings.Builder
+	// parameter declarations
+	declared := map[string]bool{}
+	decl := func(p *ParamDecl) {
+		if p == nil || p.Name == "_" || declared[p.Name] {
+			return
+		}
+		declared[p.Name] = true
+		t := p.Type
+		if strings.HasPrefix(t, "...") {
+			t = "[]" + t[3:]
+		}
+		body.WriteString(fmt.Sprintf("\tvar %s %s\n\t_ = %s\n", p.Name, t, p.Name))
+	}
+	decl(con.Recv)
+	for i := range con.Params {
+		decl(&con.Params[i])
+	}
+	ptrByVal := map[string]string{}
+	tooBig := false
+	for _, pi := range paths {
+		lhs := pi.path
+		switch pi.role {
+		case "ptr":
+			if pi.val == "0" || pi.val == "" {
+				continue
+			}
+			if !strings.HasPrefix(pi.gotype, "*") {
+				continue // interface / func / map values cannot be rebuilt from the model
+			}
+			if n, ok := modelInt(pi.val); !ok || n >= 1<<48 {
+				continue // embedded struct (addressed by a derived reference): part of its parent object
+			}
+			key := pi.gotype + "#" + pi.val
+			if prev, ok := ptrByVal[key]; ok {
+				body.WriteString(fmt.Sprintf("\tgovcTryDo(func() { %s = %s })\n", lhs, prev))
+				continue
+			}
+			ptrByVal[key] = lhs
+			body.WriteString(fmt.Sprintf("\tgovcTryDo(func() { %s = new(%s) })\n", lhs, strings.TrimPrefix(pi.gotype, "*")))
+		case "scalar":
+			if pi.gotype == "bool" {
+				body.WriteString(fmt.Sprintf("\tgovcTryDo(func() { %s = %s })\n", lhs, pi.val))
+			} else if _, ok := modelInt(pi.val); ok && pi.gotype != "" {
+				body.WriteString(fmt.Sprintf("\tgovcTryDo(func() { %s = %s(%s) })\n", lhs, pi.gotype, pi.val))
+			}
+		case "slice":
+			n := pi.length
+			if n < 0 {
+				continue
+			}
+			if n == 0 && (pi.ref == "0" || pi.ref == "") {
+				continue // nil slice
+			}
+			if n > 1<<16 {
+				tooBig = true
+				n = 1 << 16
+			}
+			body.WriteString(fmt.Sprintf("\tgovcTryDo(func() { %s = make(%s, %d) })\n", lhs, pi.gotype, n))
+			et := strings.TrimPrefix(pi.gotype, "[]")
+			var idxs []int
+			for i := range pi.elems {
+				idxs = append(idxs, i)
+			}
+			sort.Ints(idxs)
+			for _, i := range idxs {
+				if i >= n {
+					continue
+				}
+				if et == "bool" {
+					body.WriteString(fmt.Sprintf("\tgovcTryDo(func() { %s[%d] = %s })\n", lhs, i, pi.elems[i]))
+				} else if _, ok := modelInt(pi.elems[i]); ok {
+					body.WriteString(fmt.Sprintf("\tgovcTryDo(func() { %s[%d] = %s(%s) })\n", lhs, i, et, pi.elems[i]))
+				}
+			}
+		case "string":
+			n := pi.length
+			if n < 0 {
+				continue
+			}
+			if n > 1<<16 {
+				tooBig = true
+				n = 1 << 16
+			}
+			bs := make([]string, n)
+			for i := 0; i < n; i++ {
+				bs[i] = "'a'"
+				if e, ok := pi.elems[i]; ok {
+					if bv, ok := modelInt(e); ok && bv >= 0 && bv < 256 {
+						bs[i] = fmt.Sprint(bv)
+					}
+				}
+			}
+			body.WriteString(fmt.Sprintf("\tgovcTryDo(func() { %s = string([]byte{%s}) })\n", lhs, strings.Join(bs, ", ")))
+		}
+	}
+	// max slice length for bounded quantifiers
+	body.WriteString("\tgovcMaxLen = 0\n")
+	for _, pi := range paths {
+		if (pi.role == "slice" || pi.role == "string") && pi.length > 0 {
+			n := pi.length
+			if n > 512 {
+				n = 512
+			}
+			body.WriteString(fmt.Sprintf("\tif %d > govcMaxLen { govcMaxLen = %d }\n", n, n))
+		}
+	}
+	// translate requires (must hold on the rebuilt input) and the violated clause
+	g := &goTr{v: v, con: con, results: map[string]string{}, bound: map[string]bool{}, oldNames: map[string]string{}, pkg: pkgName}
+	for i, r := range con.Results {
+		g.results[r.Name] = fmt.Sprintf("res%d", i)
+	}
+	var reqs []string
+	for _, rq := range con.Requires {
+		gg := &goTr{v: v, con: con, results: map[string]string{}, bound: map[string]bool{}, oldNames: map[string]string{}, pkg: pkgName}
+		t := gg.expr(rq.Expr)
+		if gg.failed == "" {
+			reqs = append(reqs, "govcTry(func() bool { return "+t+" })")
+		}
+	}
+	clauseGo := ""
+	clauseNote := ""
+	if o.Kind == "ensures" {
+		// find the clause by its text
+		for _, en := range con.Ensures {
+			if en.Text == o.Text {
+				t := g.expr(en.Expr)
+				if g.failed == "" {
+					clauseGo = t
+				} else {
+					clauseNote = "clause not executable: " + g.failed
+				}
+			}
+		}
+	}
+	if len(reqs) > 0 {
+		body.WriteString("\tif !(" + strings.Join(reqs, " && ") + ") {\n\t\tfmt.Println(\"GOVC-REPLAY: precondition-not-met\")\n\t\treturn\n\t}\n")
+	}
+	// snapshots for old()
+	for _, st := range g.olds {
+		body.WriteString(fmt.Sprintf("\t%s := govcCopy(%s)\n\t_ = %s\n", st[0], st[1], st[0]))
+	}
+	// the call
+	var args []string
+	for _, p := range con.Params {
+		if strings.HasPrefix(p.Type, "...") {
+			args = append(args, p.Name+"...")
+		} else {
+			args = append(args, p.Name)
+		}
+	}
+	callee := fn.Name()
+	if con.Recv != nil {
+		callee = con.Recv.Name + "." + fn.Name()
+	}
+	var resNames []string
+	for i := range con.Results {
+		resNames = append(resNames, fmt.Sprintf("res%d", i))
+		t := con.Results[i].Type
+		body.WriteString(fmt.Sprintf("\tvar res%d %s\n\t_ = res%d\n", i, t, i))
+	}
+	assign := ""
+	if len(resNames) > 0 {
+		assign = strings.Join(resNames, ", ") + " = "
+	}
+	body.WriteString("\tpanicked := false\n\tfunc() {\n\t\tdefer func() {\n\t\t\tif e := recover(); e != nil {\n\t\t\t\tpanicked = true\n\t\t\t\tfmt.Printf(\"GOVC-REPLAY: panic: %v\\n\", e)\n\t\t\t}\n\t\t}()\n")
+	body.WriteString("\t\t" + assign + callee + "(" + strings.Join(args, ", ") + ")\n\t}()\n")
+	body.WriteString("\tif panicked {\n\t\tfmt.Println(\"GOVC-REPLAY: confirmed (the real code panics on the model's input)\")\n\t\treturn\n\t}\n")
+	if clauseGo != "" {
+		body.WriteString("\tif !govcTry(func() bool { return " + clauseGo + " }) {\n\t\tfmt.Println(\"GOVC-REPLAY: confirmed (the real code violates the clause on the model's input)\")\n\t\treturn\n\t}\n")
+	}
+	body.WriteString("\tfmt.Println(\"GOVC-REPLAY: not-reproduced\")\n")
+	imports := []string{"\"fmt\"", "\"testing\""}
+	full := body.String()
+	for _, cand := range []struct{ pfx, imp string }{{"syntax.", "\"github.com/dlclark/regexp2/v2/syntax\""}, {"helpers.", "\"github.com/dlclark/regexp2/v2/helpers\""}, {"time.", "\"time\""}, {"unicode.", "\"unicode\""}, {"utf8.", "\"unicode/utf8\""}, {"bytes.", "\"bytes\""}} {
+		if strings.Contains(full, cand.pfx) && pkgName != strings.TrimSuffix(cand.pfx, ".") {
+			imports = append(imports, cand.imp)
+		}
+	}
+	var sb strings.Builder
+	sb.WriteString("package " + pkgName + "\n\n// generated by govc: replay of " + o.Name + "\n\nimport (\n")
+	for _, im := range imports {
+		sb.WriteString("\t" + im + "\n")
+	}
+	sb.WriteString(")\n\nvar govcMaxLen int\n\n")
+	sb.WriteString(replayHelpers)
+	sb.WriteString("\nfunc TestGovcReplay(t *testing.T) {\n" + full + "}\n")
+	note := clauseNote
+	if tooBig {
+		note += " model lengths clamped"
+	}
+	return sb.String(), rel, note
+}
+
+const replayHelpers = `func govcTry(f func() bool) (ok bool) {
+	defer func() {
+		if recover() != nil {
+			ok = true // undefined sub-expression (index out of range in the spec): treated as not violating
+		}
+	}()
+	return f()
+}
+
+func govcTryDo(f func()) {
+	defer func() { recover() }()
+	f()
+}
+
+func govcIte[T any](c bool, a, b T) T {
+	if c {
+		return a
+	}
+	return b
+}
+
+func govcCopy[T any](x T) T {
+	switch v := any(x).(type) {
+	case []int:
+		return any(append([]int(nil), v...)).(T)
+	case []rune:
+		return any(append([]rune(nil), v...)).(T)
+	case []byte:
+		return any(append([]byte(nil), v...)).(T)
+	case []string:
+		return any(append([]string(nil), v...)).(T)
+	case [][]int:
+		c := make([][]int, len(v))
+		for i := range v {
+			c[i] = append([]int(nil), v[i]...)
+		}
+		return any(c).(T)
+	}
+	return x
+}
+`
 
 func (v *Verifier) replayModel(o *Obligation) map[string]interface{} {
-	return nil
+	res := map[string]interface{}{}
+	con := v.contracts.Funcs[o.Func]
+	fn := v.funcs[o.Func]
+	if con == nil || fn == nil {
+		res["outcome"] = "not-replayable"
+		res["reason"] = "function or contract not found"
+		return res
+	}
+	src, rel, note := v.genReplayTest(o, con, fn)
+	if src == "" {
+		res["outcome"] = "not-replayable"
+		res["reason"] = note
+		return res
+	}
+	res["test_source"] = src
+	res["package_dir"] = rel
+	if note != "" {
+		res["note"] = note
+	}
+	out, outcome := runReplayTest(v.repo, rel, src)
+	res["output"] = truncate(out, 3000)
+	res["outcome"] = outcome
+	return res
+}
+
+// runReplayTest runs the generated test inside the package through an overlay.
+func runReplayTest(repo, rel, src string) (string, string) {
+	dir, err := os.MkdirTemp("", "govc-replay")
+	if err != nil {
+		return err.Error(), "not-replayable"
+	}
+	defer os.RemoveAll(dir)
+	tf := filepath.Join(dir, "zz_govc_replay_test.go")
+	os.WriteFile(tf, []byte(src), 0o644)
+	target := filepath.Join(repo, rel, "zz_govc_replay_test.go")
+	ov := map[string]map[string]string{"Replace": {target: tf}}
+	data, _ := json.Marshal(ov)
+	ovf := filepath.Join(dir, "ov.json")
+	os.WriteFile(ovf, data, 0o644)
+	cmd := exec.Command("bash", "-c", fmt.Sprintf("ulimit -v 8000000; cd %q && go test -overlay %q -vet=off -count=1 -v -timeout 60s -run '^TestGovcReplay$' .", filepath.Join(repo, rel), ovf))
+	cmd.Env = os.Environ()
+	done := make(chan struct{})
+	var out []byte
+	go func() {
+		out, _ = cmd.CombinedOutput()
+		close(done)
+	}()
+	select {
+	case <-done:
+	case <-time.After(120 * time.Second):
+		if cmd.Process != nil {
+			cmd.Process.Kill()
+		}
+		return "replay timed out", "not-replayable"
+	}
+	s := string(out)
+	switch {
+	case strings.Contains(s, "GOVC-REPLAY: confirmed"):
+		return s, "confirmed"
+	case strings.Contains(s, "GOVC-REPLAY: not-reproduced"):
+		return s, "not-reproduced"
+	case strings.Contains(s, "GOVC-REPLAY: precondition-not-met"):
+		return s, "precondition-not-met"
+	case strings.Contains(s, "panic: test timed out"):
+		return s, "confirmed" // the real code hangs on this input
+	}
+	return s, "not-replayable"
+}
+
+// relaxedModel: for an undischarged obligation without a model, ask for a candidate model of the
+// quantifier-free part of the query (assumptions with quantifiers dropped). Candidates are only
+// trusted if they replay on the real code.
+func relaxedModel(c *Ctx, o *Obligation, dir string) map[string]string {
+	var sb strings.Builder
+	sb.WriteString("(declare-sort Str 0)\n")
+	for _, d := range c.decls {
+		sb.WriteString(d + "\n")
+	}
+	for _, a := range c.asserts[:o.N] {
+		if strings.Contains(a.term, "(forall ") || strings.Contains(a.term, "(exists ") {
+			continue
+		}
+		sb.WriteString("(assert " + a.term + ")\n")
+	}
+	// prefer small slices
+	for _, mv := range o.ModelVars {
+		if mv.Role == "len" || mv.Role == "strlen" {
+			sb.WriteString("(assert-soft (<= " + mv.Term + " 8))\n")
+		}
+	}
+	sb.WriteString("(assert (not " + o.Goal + "))\n(check-sat)\n")
+	var ts []string
+	for _, mv := range o.ModelVars {
+		ts = append(ts, mv.Term)
+	}
+	if len(ts) == 0 {
+		return nil
+	}
+	sb.WriteString("(get-value (" + strings.Join(ts, " ") + "))\n")
+	f := filepath.Join(dir, "relaxed.smt2")
+	os.WriteFile(f, []byte(sb.String()), 0o644)
+	defer os.Remove(f)
+	r := runSolver("z3-new", []string{"-T:8"}, f, 8*time.Second)
+	if r.verdict != "sat" {
+		return nil
+	}
+	return parseModel(r.out, o)
 }
